@@ -39,7 +39,7 @@ func (a aff) add(b aff, sign uint32) aff { // sign = 1 or 0xffffffff
 	}
 	return r
 }
-func (a aff) neg() aff { return affConst(0).add(a, 0xffffffff) }
+func (a aff) neg() aff      { return affConst(0).add(a, 0xffffffff) }
 func (a aff) isConst() bool { return len(a.coef) == 0 }
 func (a aff) vars() []string {
 	var vs []string
@@ -213,9 +213,9 @@ type sval struct {
 }
 
 type a32path struct {
-	pc   []form
-	ret  []sval
-	mem  map[string]aff // stores through pointer params: "*$0" -> value
+	pc  []form
+	ret []sval
+	mem map[string]aff // stores through pointer params: "*$0" -> value
 }
 
 type a32 struct {
@@ -303,10 +303,16 @@ func (e *a32) evalFunc(fn *ssa.Function, args []sval) ([]a32path, string) {
 				w := is32(x.X.Type())
 				switch x.Op {
 				case token.ADD:
-					if !w { st.env[x] = sval{bad: "non-32-bit add"}; continue }
+					if !w {
+						st.env[x] = sval{bad: "non-32-bit add"}
+						continue
+					}
 					st.env[x] = sval{a: l.a.add(r.a, 1), signed: l.signed}
 				case token.SUB:
-					if !w { st.env[x] = sval{bad: "non-32-bit sub"}; continue }
+					if !w {
+						st.env[x] = sval{bad: "non-32-bit sub"}
+						continue
+					}
 					st.env[x] = sval{a: l.a.add(r.a, 0xffffffff), signed: l.signed}
 				case token.EQL, token.NEQ:
 					if l.isBool || !w {
